@@ -5,6 +5,7 @@
   the sites are regenerated from the listeners' Go source (Gen/NavSites.lean).
 -/
 import CocaVerif.Base.Rx
+import CocaVerif.Base.NavTree
 import CocaVerif.Gen.JavaGrammar
 import CocaVerif.Gen.NavSites
 
@@ -31,5 +32,15 @@ def siteSafe (g : String → Rx) (s : Gen.NavSites.Site) : Bool :=
       (Rx.pv (s.sym :: s.given) (g s.rule)).1.all fun p => !(s.given.all fun y => p.contains y) || p.contains s.sym)
 
 def unsafeSites (g : String → Rx) (l : List Gen.NavSites.Site) : List Gen.NavSites.Site := l.filter fun s => !siteSafe g s
+
+/-- the start symbol of the parse the tool runs (`parser.CompilationUnit()`) -/
+def startRule : String := "compilationUnit"
+
+/-- a navigation chain is discharged when the abstract run over the grammar, from a non-nil node of the chain's rule, is safe -/
+def pathSafe (g : String → Rx) (names : List String) (s : Gen.NavSites.PathSite) : Bool :=
+  NavTree.runA g names startRule { syms := [s.rule], mayNil := false } s.steps
+
+def unsafePaths (g : String → Rx) (names : List String) (l : List Gen.NavSites.PathSite) : List Gen.NavSites.PathSite :=
+  l.filter fun s => !pathSafe g names s
 
 end CocaVerif.Nav
